@@ -4,6 +4,7 @@ E1 fault enumeration: script corpus x backend x cut kind x cut position (every
 delivered network event k; for server.close() also every following loop
 iteration j) x <= d schedule deviations after the cut.  DESIGN.md §5 C12.
 """
+import asyncio
 import json
 
 from vf import ledger, report, backends
@@ -75,9 +76,11 @@ def run_cut(case, chooser):
         async def closing():
             await rig.server.close()
             # what is still open at the very moment close() returns (not one loop turn later)
+            me = asyncio.current_task()
             state["at_return"] = {
                 "listeners": [l.port for l in w.net.all_listeners if not l.closed and l.owner == "server"],
                 "sockets": [x.name for x in ledger.server_side_open(w)],
+                "tasks": sorted(ledger._tname(x) for x in ledger.tasks_alive(w) if x is not me),
             }
 
         def do_cut():
@@ -204,6 +207,8 @@ def run_cut(case, chooser):
                 problems.append({"kind": "listener-open-when-close-returns", "ports": at["listeners"]})
             if at and at["sockets"]:
                 problems.append({"kind": "server-transport-open-when-close-returns", "names": at["sockets"]})
+            if at and at["tasks"]:
+                problems.append({"kind": "tasks-alive-when-close-returns", "names": at["tasks"]})
             left = ledger.tasks_alive(w)
             if left:
                 problems.append({"kind": "tasks-left", "names": sorted(ledger._tname(x) for x in left)})
